@@ -129,3 +129,13 @@ Theorem C04_sync_callback_decreases_variant : forall s t b, sreach s -> 1 <= b -
   In t (inflight (base s)) -> mu (base (fst (sstep s (SCb t b)))) < mu (base s).
 Proof. exact sync_mu_callback_decreases. Qed.
 Print Assumptions C04_sync_callback_decreases_variant.
+
+(* No deadlock, with an explicit bound: from any reachable state in which the consumer waits there is a schedule of
+   at most mu s completion events -- each of a batch that is in flight or between the two sections of its
+   callback -- at whose end the consumer has its answer (a value, the end of the stream, or the exception). *)
+Theorem C04_bounded_waiting : forall n s, reach s -> mu s <= n -> want s = true -> phase s = Retrieving ->
+  snd (try_advance s) = None ->
+  exists es, es <> [] /\ length es <= n /\ Forall (fun e => wf_ev e /\ is_completion e) es /\
+             last (snd (run_events true s es)) [] <> [].
+Proof. exact bounded_waiting. Qed.
+Print Assumptions C04_bounded_waiting.
